@@ -1317,11 +1317,19 @@ func c1NilGuards(c *Ctx, rule string, jsonOnly bool) {
 				nj := c.Func(CorePath, "newJSONEncoder")
 				okDef := false
 				if nj != nil {
-					AllInstrs(nj, func(in ssa.Instruction) {
-						if st, isSt := in.(*ssa.Store); isSt && strings.HasSuffix(Desc(st.Addr), ".NewReflectedEncoder") {
-							okDef = strings.HasSuffix(Desc(st.Val), "defaultReflectedEncoder") && containsS(AtomStrings(Guards(st)), "cfg.NewReflectedEncoder == nil")
-						}
-					})
+					for _, f := range Region(nj) {
+						AllInstrs(f, func(in ssa.Instruction) {
+							if st, isSt := in.(*ssa.Store); isSt && strings.HasSuffix(Desc(st.Addr), ".NewReflectedEncoder") {
+								hasG := false
+								for _, a := range AtomStrings(GuardsOfBlock(st.Block())) {
+									if strings.HasSuffix(a, ".NewReflectedEncoder == nil") {
+										hasG = true
+									}
+								}
+								okDef = strings.HasSuffix(Desc(st.Val), "defaultReflectedEncoder") && hasG
+							}
+						})
+					}
 				}
 				// and newJSONEncoder is the only place an EncoderConfig is attached to a fresh jsonEncoder
 				var attach []string
